@@ -4,6 +4,7 @@ documented "last multiple not after" / "nearest multiple", `sort.Strings` (inser
 permutation, and what `chainEmits` forwards against the documented point `docRec`.
 -/
 import Kap.Proofs.C02Sim
+import Kap.Proofs.C06
 namespace Kap.C02
 
 /-! ### time -/
@@ -200,6 +201,32 @@ theorem mergeSort_isSortedPerm (l : List String) : IsSortedPermOf l (l.mergeSort
 theorem sortStrings_eq_mergeSort (l : List String) : sortStrings l = l.mergeSort (fun a b => decide (a ≤ b)) :=
   sorted_perm_unique (sortStrings_isSortedPerm l) (mergeSort_isSortedPerm l)
 
+/-- The two transcriptions of `sort.Strings` (this file's and C06's) are the same function. -/
+theorem insertSorted_eq_c06 (a : String) : ∀ l : List String, insertSorted a l = C06.insertSorted a l
+  | [] => rfl
+  | b :: l => by
+    unfold insertSorted C06.insertSorted
+    rw [insertSorted_eq_c06 a l]
+
+theorem sortStrings_eq_c06 : ∀ l : List String, sortStrings l = C06.sortStrings l
+  | [] => rfl
+  | a :: l => by
+    show insertSorted a (sortStrings l) = C06.insertSorted a (C06.sortStrings l)
+    rw [sortStrings_eq_c06 l, insertSorted_eq_c06]
+
+/-- the sorted dimension list with repetitions dropped is strictly increasing and has the listed members -/
+theorem uniqueSorted_sort_isListing (l : List String) : IsSortedListingOf l (C06.uniqueSorted (sortStrings l)) := by
+  refine ⟨?_, ?_⟩
+  · rw [sortStrings_eq_c06]
+    exact C06.pairwise_of_sortedLt _ (C06.sortedLt_uniqueSorted _ (C06.sortedLe_sortStrings l))
+  · intro t
+    rw [C06.mem_uniqueSorted]
+    exact (sortStrings_perm l).mem_iff
+
+/-- A list has ONE strictly increasing listing. -/
+theorem sorted_listing_unique {l r₁ r₂ : List String} (h₁ : IsSortedListingOf l r₁) (h₂ : IsSortedListingOf l r₂) : r₁ = r₂ :=
+  C06.pairwise_lt_ext r₁ r₂ h₁.1 h₂.1 (fun t => (h₁.2 t).trans (h₂.2 t).symm)
+
 /-- What `FromNode.Point` computes as tag names is the documented list. -/
 theorem computeTagNames_doc (o : FromOpts) (tags : List (String × String)) :
     computeTagNames tags o.determineTagNames.1 o.determineTagNames.2 = docTagNames o tags := by
@@ -207,7 +234,7 @@ theorem computeTagNames_doc (o : FromOpts) (tags : List (String × String)) :
   by_cases hs : o.star = true
   · simp only [hs, if_true]; exact sortStrings_eq_mergeSort _
   · have : o.star = false := by simpa using hs
-    simp only [this, Bool.false_eq_true, if_false]; exact sortStrings_eq_mergeSort _
+    simp only [this, Bool.false_eq_true, if_false]; rw [sortStrings_eq_mergeSort]
 
 /-! ### what a from-node forwards -/
 
